@@ -1185,9 +1185,18 @@ func (m *membershipAllower) membershipAllowedFromThirdPartyInvite() error {
 	if err != nil {
 		return err
 	}
+	// The public keys are a single key in the "public_key" property and a list of keys
+	// in the "public_keys" property of the m.room.third_party_invite event.
+	publicKeys := m.thirdPartyInvite.PublicKeys
+	if m.thirdPartyInvite.PublicKey != "" {
+		var single spec.Base64Bytes
+		if err = single.Decode(m.thirdPartyInvite.PublicKey); err == nil {
+			publicKeys = append([]PublicKey{{PublicKey: single}}, publicKeys...)
+		}
+	}
 	// Check each signature with each public key. If one signature could be
 	// verified with one public key, accept the event.
-	for _, publicKey := range m.thirdPartyInvite.PublicKeys {
+	for _, publicKey := range publicKeys {
 		for domain, signatures := range m.newMember.ThirdPartyInvite.Signed.Signatures {
 			for keyID := range signatures {
 				if strings.HasPrefix(keyID, "ed25519") {
